@@ -1065,3 +1065,41 @@ TRUSTED = list(TRUSTED) + [
 PROOF_MODULES = PROOF_MODULES + [m for m in ['Compute.Lemmas.FlModelGrid', 'Compute.Props.RoundingGrid'] if m not in PROOF_MODULES]
 REQUIRED_THEOREMS = REQUIRED_THEOREMS + [t for t in ['Cv.RoundingGrid.Step.HG_solve', 'Cv.FlModel.grid_abs_sub_le', 'Cv.FlModel.grid_idem', 'Cv.FlModel.grid_mono', 'Cv.FlModel.grid_rnd_one', 'Cv.FlModel.grid_rnd_natCast', 'Cv.FlModel.grid_rnd_dyadic', 'Cv.FlModel.f64grid_u', 'Cv.FlModel.f64grid_mono'] if t not in REQUIRED_THEOREMS]
 NOT_PROVED = list(NOT_PROVED) + ['FlModel has a genuine instance, FlModel.grid p (radix 2, p digits, round to nearest, unbounded exponent; f64grid has u = 2^-53), proved to satisfy the standard model and to be idempotent and monotone, with integers <= 2^p and dyadics exact (Lemmas/FlModelGrid); headline rounding theorems are instantiated on it (Props/RoundingGrid); overflow and underflow remain outside the model']
+
+# --- FINAL (second review round, property owner): complete literal lists; supersedes every earlier NOT_PROVED / TRUSTED / ASSUMPTIONS edit above
+PROOF_MODULES = PROOF_MODULES + [m for m in ['Compute.Props.C01Review2'] if m not in PROOF_MODULES]
+REQUIRED_THEOREMS = REQUIRED_THEOREMS + [t for t in [
+    'Cv.C01Review.solveSys_column_backward_error', 'Cv.C01Review.invertMatrix_column',
+    'Cv.C01Review.rowToColMajor_eq_shape', 'Cv.C01Review.colToRowMajor_eq_shape',
+    'Cv.C01Review.rowToColMajor_src', 'Cv.C01Review.colToRowMajor_src',
+    'Cv.C01Review.matrix_solveV_nonsquare', 'Cv.C11Lu.lu_correct'] if t not in REQUIRED_THEOREMS]
+NOT_PROVED = [
+    "a bound on the growth factor of partial pivoting, hence the residual in the ||A||-form of the property: NOT proved. What IS proved, in the standard model and ONLY under the provisos of the next "
+    "bullet: whatever solve returns satisfies (A+dA)x = b with |dA| <= gamma_(3n)|L||U| (LU route; norm-wise gamma_(3n) n ||U||) resp. gamma_(3n+1)|L||L^T| (Cholesky route), with residual corollaries; "
+    "per component in norm-wise form (Props/Rounding6): LU route |b - A x|_i <= gamma_(3n) rho ||A|| ||x|| with rho = || |L||U| || / ||A|| explicit and NOT bounded, Cholesky route "
+    "|b - A x|_i <= gamma_(3n+1) n/(1-gamma_(n+1)) max a_ii ||x|| with no growth quantity",
+    "PROVISOS of every rounding theorem (solve_backward_error, luRoute_*, choleskyRoute_*, matrix_solveV_backward_error, solveSys_column_backward_error, Rounding6.*): n >= 2, (3n+1)u < 1, "
+    "NO COMPUTED PIVOT IS ZERO on the LU route (in the model x/0 rounds to 0 where the code yields inf/NaN), and every operation obeys fl(x) = x(1+d), |d| <= u, i.e. no overflow and no underflow. "
+    "The model has a genuine instance (FlModel.grid: radix 2, p digits, round to nearest, UNBOUNDED exponent; Lemmas/FlModelGrid, Props/RoundingGrid), so the hypotheses are satisfiable, but binary64 "
+    "satisfies them only while no intermediate overflows or becomes subnormal; at the extreme power-of-two scales of the generator (|k| up to 1000) only the oracle decides",
+    "FINITENESS of the returned values / absence of overflow: no theorem; decided per run by the oracle only (every generated in-scope system must give finite values)",
+    "which entry points carry a rounded theorem: solve (RoundingLU.solve_backward_error), invert_matrix (Rounding6.invertMatrix_residual), Matrix::solve with a Vector (C01Review.matrix_solveV_backward_error), "
+    "and solve_sys / invert_matrix COLUMN BY COLUMN (C01Review.solveSys_column_backward_error, invertMatrix_column: each returned column is exactly what solve returns on that column, at every scalar type). "
+    "Matrix::solve with a Matrix right-hand side and Matrix::inv have NO rounded theorem (their column-splitting lemmas colsM_spec / matrix_solve_correct are stated over fields only); for them the reduction to "
+    "Matrix::solve with a Vector rests on the oracle clause that every column of the Matrix result is bit-identical to Matrix::solve on that column",
+    "result = Mathlib A^-1 b resp. A^-1 is proved for the slice entry points (solve, solve_sys, invert_matrix) only; for the Matrix entry points the proved statement is A.x = b, A.X = B, A.X = I (which determines the result uniquely for non-singular A, but the identification with Mathlib's inverse is not stated)",
+    "is_square: the Rust code takes an f32 square root; the model uses the exact integer square root. They agree for every length below 2^24 (at 2^24+1 Rust answers Ok(4096) and the model panics); "
+    "every theorem that quantifies over the length is about the model, i.e. holds for the code only for fewer than 2^24 elements",
+]
+TRUSTED = [
+    "is_square modelled with an exact integer square root (f32 sqrt is exact below 2^24 elements)",
+    "standard model of floating-point arithmetic (Lemmas/FlModel: fl(a op b) = (a op b)(1+d), |d| <= u for + - * / and FlSqrt for sqrt) as the link between the rounding theorems and IEEE binary64 - valid only without overflow/underflow",
+    "numpy condition-number estimate (inf-norm), used only to decide whether an input is inside the oracle's scope: the property quantifies to cond 1e10, the generators produce up to 1e10, and the oracle enforces "
+    "its bounds for every input with cond_inf <= 1e11 (one decade of slack for the estimate); residual tolerance 200 n eps (|A||X|+|B|), route / entry-point agreement tolerance 500 n eps cond "
+    "(about 3.5e-2 relative at cond 1e10, n = 32)",
+    "source tie covers the slice-level routines only: substitutions, lu, lu_solve, try_cholesky, cholesky_solve, the routing glue / per-column loops of solve, solve_sys, invert_matrix, and "
+    "row_to_col_major / col_to_row_major (regenerated under C15 against Cv.Shape.*, bridged to the Cv.LA.* functions solve_sys calls by C01Review.rowToColMajor_src / colToRowMajor_src); the predicates "
+    "is_symmetric / is_positive_definite / is_exactly_symmetric / is_square / is_matrix and every Matrix method (Matrix::lu, Solve::lu_solve, Solve<Matrix>::{lu_solve, solve}, Matrix::inv) are hand-modelled "
+    "and tied by run-time bit-exact correspondence only",
+]
+ASSUMPTIONS = ["default cargo features (no blas/lapack)", "matrix element count < 2^24"]
